@@ -16,7 +16,7 @@ pub struct Case {
     pub chunks: Vec<String>,
 }
 
-const FRAG: &[&str] = &["a", "é", "漢", " ", "\t", "b", "♠"];
+const FRAG: &[&str] = &["a", "é", "漢", " ", "\t", "b", "♠", "\u{200b}"];
 const SEPS: &[&str] = &["\n", "\r\n", "\r", "\n\n", "\n\r\n"];
 
 pub fn gen_text(ch: &mut Choices, max_lines: usize, max_frag: usize) -> String {
@@ -150,7 +150,7 @@ impl Prop for C19 {
         serde_json::to_value(Case { chunks }).unwrap()
     }
     fn rule(&self) -> String {
-        "texts from line fragments over {a,é,漢,♠,space,tab} joined by LF/CRLF/lone CR, random chunkings on char boundaries (empty chunks included); every char-boundary offset and every span (s<=e) of the text is queried (NewlineCache, the lexer's line_col/span_lines_str, LexParseError::pp for lexing errors and for every parse error (recovery off and on; repairs with inserts, shifts and runs of adjacent deletes), and the builders' SpannedDiagnosticFormatter::file_location_msg / underline_span_with_text) and compared with a naive scan (1+count of LF; chars since line start; rfind/find of LF; numbered source rows, each followed by an underline row that starts below the first covered character of that line and is as wide as the covered part). 1/24 of the texts start with 4-11 or 94-100 short lines so that line numbers gain a digit inside the text (for texts with more than 70 boundaries only the spans between a subset of at most 44 boundaries - those of lines 9-10 and 99-100, every k-th, the end - are queried). One evaluation = one (text,chunking) with all its offsets and spans. Non-trivial: >=2 lines and (multi-byte char or CRLF) and a query touching a line boundary/end of text (always the case since all boundaries are enumerated); distinct by (text, chunking).".into()
+        "texts from line fragments over {a,é,漢,♠,space,tab,ZERO WIDTH SPACE} joined by LF/CRLF/lone CR, random chunkings on char boundaries (empty chunks included); every char-boundary offset and every span (s<=e) of the text is queried (NewlineCache, the lexer's line_col/span_lines_str, LexParseError::pp for lexing errors and for every parse error (recovery off and on; repairs with inserts, shifts and runs of adjacent deletes), and the builders' SpannedDiagnosticFormatter::file_location_msg / underline_span_with_text) and compared with a naive scan (1+count of LF; chars since line start; rfind/find of LF; numbered source rows, each followed by an underline row that starts below the first covered character of that line and is as wide as the covered part). 1/24 of the texts start with 4-11 or 94-100 short lines so that line numbers gain a digit inside the text (for texts with more than 70 boundaries only the spans between a subset of at most 44 boundaries - those of lines 9-10 and 99-100, every k-th, the end - are queried). One evaluation = one (text,chunking) with all its offsets and spans. Non-trivial: >=2 lines and (multi-byte char or CRLF) and a query touching a line boundary/end of text (always the case since all boundaries are enumerated); distinct by (text, chunking).".into()
     }
     fn assumptions(&self) -> Vec<String> {
         vec![
